@@ -29,6 +29,8 @@ CONSTANTS N, Apis, Modes, LossKinds,
           EventTestOutside, \* (with FixEvent) the "closed?" test of _event_pending is made before Channel.lock is taken
           FixEnsure,   \* ServiceRequestingTransport.ensure_session tests `active` in its sleep loop
           FixProxy,    \* ProxyCommand.recv reports end of file when the process has exited
+          ProxyEofNeedsExit, \* ProxyCommand.recv takes an empty read for end of file only once the process has exited:
+                       \* a command that closed its stdout and lingers never ends the stream (must be refuted)
           Omit,        \* "none" | "unlink" | "clear" | "notify" | "cl_unlink"
           NoPoll       \* families in {"open", "global", "rekey", "auth"} whose wait is changed to test `active` once on
                        \* entry and then wait on the event alone ({} = the code: every 0.1 s `active` is polled)
@@ -48,7 +50,10 @@ shared == <<active, pclosed, sclosed, tt, cl, loss, ch, completion, authev, svc,
 
 W == 1..N
 StreamKinds == {"disconnect", "eof", "peer_close", "proto_error"}
-AllKinds == StreamKinds \cup {"local_close", "proxy_exit"}
+(* a ProxyCommand's stream (the command's stdout) ends when the process exits ("proxy_exit") or when the     *)
+(* command closes its stdout and goes on running ("proxy_eof": a relay with half-close semantics)            *)
+ProxyKinds == {"proxy_exit", "proxy_eof"}
+AllKinds == StreamKinds \cup {"local_close"} \cup ProxyKinds
 
 Family(api) ==
   CASE api \in {"recv", "recv_stderr"} -> "recv"
@@ -126,7 +131,7 @@ ShutdownComplete == loss # "none" /\ tt = "dead" /\ cl \in {"idle", "done"}
 (* loss events *)
 Lose(k) ==
   /\ loss = "none" /\ k \in LossKinds
-  /\ (k # "proxy_exit" => \A w \in W : Family(wapi[w]) # "proxy")   \* direct ProxyCommand I/O only meets proxy exit
+  /\ (k \notin ProxyKinds => \A w \in W : Family(wapi[w]) # "proxy")   \* direct ProxyCommand I/O only meets the proxy's losses
   /\ loss' = k
   /\ cl' = (IF k = "local_close" THEN "cl_test" ELSE cl)
   /\ UNCHANGED <<active, pclosed, sclosed, tt, ch, completion, authev, svc, ocreg, ocev, cvwait, cvnote,
@@ -135,7 +140,9 @@ Lose(k) ==
 (* what the read loop sees: a DISCONNECT message, EOFError from read_all, an SSHException, or - once the      *)
 (* packetizer is closed - EOFError at the next 0.1 s socket timeout.  A ProxyCommand whose process has        *)
 (* exited keeps raising socket.timeout in the pinned code: the loop never ends.                               *)
-StreamEnded == loss \in StreamKinds \/ (loss = "proxy_exit" /\ FixProxy)
+(* os.read() on the command's stdout returns b"" in both proxy kinds; what recv() makes of it:               *)
+ProxyAtEof == FixProxy /\ (loss = "proxy_exit" \/ (loss = "proxy_eof" /\ ~ProxyEofNeedsExit))
+StreamEnded == loss \in StreamKinds \/ ProxyAtEof
 
 Unlinked(c) == IF c.linked /\ ~c.closed
                THEN [c EXCEPT !.closed = TRUE, !.event = TRUE, !.status = TRUE, !.linked = FALSE,
@@ -229,7 +236,7 @@ PhaseNow == IF loss = "none" THEN "before" ELSE IF ShutdownComplete THEN "after"
 Call(w, api, mode) ==
   /\ wpc[w] = "idle" /\ api \in Apis /\ mode \in Modes
   /\ (mode = "timed" => HasTimed(Family(api)))
-  /\ (Family(api) = "proxy" => loss \in {"none", "proxy_exit"} /\ "proxy_exit" \in LossKinds)
+  /\ (Family(api) = "proxy" => loss \in {"none"} \cup ProxyKinds /\ ProxyKinds \cap LossKinds # {})
   /\ wapi' = [wapi EXCEPT ![w] = api] /\ wmode' = [wmode EXCEPT ![w] = mode]
   /\ wphase' = [wphase EXCEPT ![w] = PhaseNow]
   /\ Goto(w, Entry(api))
@@ -346,8 +353,8 @@ AcWake(w) == /\ wpc[w] = "ac_wait" /\ w \in cvnote /\ Finish(w, "returned") /\ c
 (* ProxyCommand.recv: select() + os.read() until `size` bytes are there.  When the process has exited the     *)
 (* pipe is at end of file: select() says readable, os.read() returns b"" - the pinned loop goes round again  *)
 (* (until its timeout, if it has one); the repair returns what it has (b"" = end of file).  send() to a dead *)
-(* process fails with EPIPE -> ProxyCommandFailure.                                                           *)
-PxRecv(w) == /\ wpc[w] = "px_recv" /\ loss = "proxy_exit" /\ FixProxy /\ Finish(w, "returned")
+(* process fails with EPIPE -> ProxyCommandFailure; to a command that only closed its stdout it succeeds.      *)
+PxRecv(w) == /\ wpc[w] = "px_recv" /\ ProxyAtEof /\ Finish(w, "returned")
              /\ Keep /\ UNCHANGED shared
 PxSend(w) == /\ wpc[w] = "px_send" /\ Finish(w, IF loss = "proxy_exit" THEN "raised" ELSE "returned")
              /\ Keep /\ UNCHANGED shared
